@@ -1009,7 +1009,7 @@ let suite_stepcheck (line : string) : string =
         (fun ev ->
           let args = brackets ev in
           match ev.[0], args with
-          | 'O', m :: _ -> mfs := n_of_string m; recovering := true
+          | 'O', m :: _ -> mfs := n_of_string m; recovering := true; pending := None
           | 'R', _ -> recovering := false
           | 'C', [ level; in0; in1; ss ] ->
               (* the inputs were selected on the version current at this moment *)
@@ -1036,7 +1036,10 @@ let suite_stepcheck (line : string) : string =
               List.iter (fun (_, f, es) ->
                 if es <> [] && not (file_bounds_ok es f) then complain ("bounds of new file " ^ string_of_n f.fm_num ^ " are not its first/last entry")) adds;
               (* a memtable flush may be installed in the middle of a running compaction *)
-              let pend = if dels = [] then None else !pending in
+              (* a trivial move re-adds the number it deletes: it is never the install of the merging
+                 compaction whose start was seen (that one may have been abandoned at shutdown) *)
+              let is_move = (match dels, adds with [ (_, dn) ], [ (_, f, _) ] -> f.fm_num = dn | _ -> false) in
+              let pend = if dels = [] || is_move then None else !pending in
               (match pend, dels, adds with
                | Some (level, in0, in1, ss, v), _, _ ->
                    pending := None;
